@@ -25,7 +25,7 @@ UTIL = dict(bin="util", driver="util_driver", model_ml="util_model", extract=["U
 
 CONFIG = dict(
 
-    claim="Machine-checked proof that the executable models - which return the distinguished outcome Fault for every panic of a checked build (integer overflow, slice index, length mismatch, unwrap) - never return it: header validation of both formats and the wrapper constructors on any buffer at any address (C02_validate_total, C02_wrapper_total), address translation on any section table (C02_rva_to_file_offset_total ...), slicing and reading on file and mapped views for any address and min_size and any power-of-two align (anything else fails AlignTo's debug assertion by design), the typed read family on both paths including the sentinel scans, relocation iteration/fold/build, the Rich header scans, the string enumerator, the pattern parser on any byte string, the pattern interpreter on any atom list, and the C string formatters. The no-fault theorems of the directory modules are restated here from their own properties: to_view/to_file (C02_to_view_total, C02_to_file_total), export table extraction and get_proc_address by ordinal/name/import (C02_exports_by_total, C02_get_proc_address_total), imports and thunk decoding (C02_imports_total, C02_import_from_va_total), Matches::next for every pattern and range (C02_scanner_next_total), version info with ANY visitor (C02_version_info_total), RichIter under any call history (C02_rich_iter_total), exception/security/debug/TLS/load-config (C02_directories_total) and the resource consistency check on any bytes (C02_resources_fsck_total). Tied to /repo by re-running every component correspondence in debug (overflow checks, std UB checks) AND release builds with every API call under catch_unwind in isolated workers, plus a walker that calls the whole public API (accessors, directory parsers, iterators, Debug/Display, serde_json, scanner, to_view/to_file, resources incl. fsck/version info/icon groups) on the shipped PE files (2 demo DLLs, 11 tiny, 217 corkami) and field-level corruptions of them. CHECKED TWINS (Model/Checked.v): the first-phase models of Mapping/Views/Headers/Rich/Relocs/Strings wrote some plain Rust operators with unbounded arithmetic and total nth, so no-fault over them was true by omission; each such function now has a twin with chk_add/chk_sub/chk_mul at every plain + - *, Fault PIndex/PSliceOrder at every index and re-slicing and a reference check at every raw cast, and a theorem that the twin equals the model (C02_checked_rva_to_file_offset, _file_offset_to_rva, _range_file, _slice, _read, _va_to_rva: no hypothesis; C02_checked_typed_reads incl. the derva_slice_f loop under len + size_of T < 2^64 with the witness C02_checked_slice_f_needs_range that the hypothesis is needed; C02_checked_validate, C02_checked_wrapper for byte-valued buffers; C02_checked_rich_try_from - in particular for every e_lfanew below 0x40 -, C02_checked_rich_accessors, C02_checked_rich_encode; C02_checked_reloc_parse with the Err(Misaligned) branch of BaseRelocs::parse, C02_checked_reloc_build_size; C02_checked_strings_next). One obligation was false: RichStructure::encode overflowed u32 from 2^29 - 4 records on (F41, C02_F41_rich_encode_orig_refuted, repaired; C02_checked_rich_encode_total for the repaired code).",
+    claim="Machine-checked proof that the executable models - which return the distinguished outcome Fault for every panic of a checked build (integer overflow, slice index, length mismatch, unwrap) - never return it: header validation of both formats and the wrapper constructors on any buffer at any address (C02_validate_total, C02_wrapper_total), address translation on any section table (C02_rva_to_file_offset_total ...), slicing and reading on file and mapped views for any address and min_size and any power-of-two align (anything else fails AlignTo's debug assertion by design), the typed read family on both paths including the sentinel scans, relocation iteration/fold/build, the Rich header scans, the string enumerator, the pattern parser on any byte string, the pattern interpreter on any atom list, and the C string formatters. The no-fault theorems of the directory modules are restated here from their own properties: to_view/to_file (C02_to_view_total, C02_to_file_total), export table extraction and get_proc_address by ordinal/name/import (C02_exports_by_total, C02_get_proc_address_total), imports and thunk decoding (C02_imports_total, C02_import_from_va_total), Matches::next for every pattern and range (C02_scanner_next_total), version info with ANY visitor (C02_version_info_total), RichIter under any call history (C02_rich_iter_total), exception/security/debug/TLS/load-config (C02_directories_total) and the resource consistency check on any bytes (C02_resources_fsck_total). Tied to /repo by re-running every component correspondence in debug (overflow checks, std UB checks) AND release builds with every API call under catch_unwind in isolated workers, plus a walker that calls the whole public API (accessors, directory parsers, iterators, Debug/Display, serde_json, scanner, to_view/to_file, resources incl. fsck/version info/icon groups) on the shipped PE files (2 demo DLLs, 11 tiny, 217 corkami) and field-level corruptions of them. CHECKED TWINS (Model/Checked.v): the first-phase models of Mapping/Views/Headers/Rich/Relocs/Strings wrote some plain Rust operators with unbounded arithmetic and total nth, so no-fault over them was true by omission; each such function now has a twin with chk_add/chk_sub/chk_mul at every plain + - *, Fault PIndex/PSliceOrder at every index and re-slicing and a reference check at every raw cast, and a theorem that the twin equals the model (C02_checked_rva_to_file_offset, _file_offset_to_rva, _range_file, _slice, _read, _va_to_rva: no hypothesis; C02_checked_typed_reads incl. the derva_slice_f loop under len + size_of T < 2^64 with the witness C02_checked_slice_f_needs_range that the hypothesis is needed; C02_checked_validate, C02_checked_wrapper for byte-valued buffers; C02_checked_rich_try_from - in particular for every e_lfanew below 0x40 -, C02_checked_rich_accessors, C02_checked_rich_encode; C02_checked_reloc_parse with the Err(Misaligned) branch of BaseRelocs::parse, C02_checked_reloc_build_size; C02_checked_strings_next). One obligation was false: RichStructure::encode overflowed u32 from 2^29 - 4 records on (F41, C02_F41_rich_encode_orig_refuted, repaired; C02_checked_rich_encode_total for the repaired code). The utility / formatting layer (component `util`): UTF-16 decoding, FmtUtf16 Display / Debug, WideStr::from_words and accessors, strn / wstrn / trimn / parsen / split_f, the GUID formatters, Ptr::fmt and the hex traits and flags!::to_strs (1 << i never shifts by the width) never panic on any input (C02_util_total); the free-standing helpers that CAN panic do so exactly on the stated arguments - WideStr::from_str on an empty buffer or, in a build that checks overflow, from 65536 code units on; Ptr::member / Ptr::at / Pir::at when base + offset leaves the Va range, with the 32-bit truncation of (i * size) stated (C02_util_from_str_faults_iff, C02_util_ptr_*); none of these is reachable from a parsed image.",
     note="Partial: stack bytes are outside the model (depth is bounded by theorems, F31 - about 10k skip ranges in one pattern exhaust an 8 MiB stack in a debug build - is outside the generators); formatters and serializers other than the C string escape loops are exercised by the walker, not modelled. Trusted: Coq kernel, extraction and glue, catch_unwind + process isolation of the harness.",
     extract=["CStrFmt"],
     release_in_quick=True,
